@@ -213,6 +213,12 @@ func (r *Report) Finish(verifDir string) int {
 
 	wall := time.Since(r.Start).Seconds()
 	outDir := filepath.Join(verifDir, "out")
+	evDir := filepath.Join(verifDir, "evidence")
+	if alt := os.Getenv("LCV_OUT"); alt != "" {
+		// mutant / self-test runs must never replace the evidence of the real tree
+		outDir = filepath.Join(alt, "out")
+		evDir = filepath.Join(alt, "evidence")
+	}
 	os.MkdirAll(outDir, 0755)
 	replay := filepath.Join(outDir, fmt.Sprintf("%s-%s.report.json", r.Prop, r.Tier))
 	full := map[string]interface{}{
@@ -263,7 +269,6 @@ func (r *Report) Finish(verifDir string) int {
 		"wall_s":      wall,
 		"violations":  nViol,
 	}
-	evDir := filepath.Join(verifDir, "evidence")
 	os.MkdirAll(evDir, 0755)
 	b, _ := json.MarshalIndent(ev, "", " ")
 	if err := os.WriteFile(filepath.Join(evDir, r.Prop+".json"), append(b, '\n'), 0644); err != nil {
